@@ -169,8 +169,14 @@ func (fc *fctx) externalCall(callee *ssa.Function, args []*Val, cc *ssa.CallComm
 	tr.warn("%s: external %s without contract: everything havocked", fnKey(fc.fn), key)
 	// the function under contract left the modelled subset: say so as an obligation of its own instead of leaving it to
 	// the vacuity check (what follows an unmodelled call is not meaningful)
-	tr.oblige("subset", "subset/"+fnKey(fc.fn)+"/unmodelled-external/"+sanitize(key), "false", pos, tr.topProps,
-		"call of "+key+", a dependency function without an assumed contract: the code left the subset the contracts were written for")
+	if o := tr.oblige("subset", "subset/"+fnKey(fc.fn)+"/unmodelled-external/"+sanitize(key), "false", pos, tr.topProps,
+		"call of "+key+", a dependency function without an assumed contract: the code left the subset the contracts were written for"); o != nil {
+		// decided here, not by a solver: after an unmodelled call the symbolic state may be inconsistent, and `false`
+		// would then be "proved"
+		o.Expect = "preset"
+		o.Status = "unknown"
+		o.Solver = "govc (function left the modelled subset)"
+	}
 	tr.trusted["unmodelled external "+key+" (havocs all memory, arbitrary results)"] = true
 	tr.havocAll()
 	return fc.freshResults(callee.Signature.Results(), "x")
